@@ -6,6 +6,8 @@
                                handleIncomingResponse, associationIEs, handleAssociationSetupRequest
    pfcpiface/utils.go          setUeipFeature, setFTUPFeature, setEndMarkerFeature
    go-pfcp message/header.go   the sequence number is a uint32 field, 3 octets on the wire
+   (the code as of the fix commits 85c666e: 24-bit counter, b3cbab8: entry removed when the exchange ends,
+   one-slot reply channel, LoadAndDelete + non-blocking hand-over)
 
    Time is the trace: [Timeout] is the expiry of the resp_timeout timer started after the latest
    transmission, so "spaced by resp_timeout" reads "exactly one Timeout between two transmissions". *)
@@ -17,20 +19,22 @@ Open Scope N_scope.
 (** * Sequence numbers *)
 
 Definition two24 : N := 16777216.
-Definition two32 : N := 4294967296.
 
-(* conn.go getSeqNum: pConn.seqNum.seq++ on a uint32 ; the result is NOT reduced to 24 bits *)
-Definition next_seq (c : N) : N := (c + 1) mod two32.
+(* conn.go getSeqNum: pConn.seqNum.seq = (pConn.seqNum.seq + 1) & 0xFFFFFF  (wraps from 2^24-1 to 0) *)
+Definition next_seq (c : N) : N := (c + 1) mod two24.
 (* go-pfcp: uint32To24 on marshal, uint24To32 on parse: what the peer sees and what it echoes *)
 Definition wire_seq (s : N) : N := s mod two24.
 
 (* ------------------------------------------------------------------------------------------ *)
 (** * One request/response exchange: sendPFCPRequestMessage + handleIncomingResponse *)
 
-(* Per-connection state that outlives an exchange: the sequence counter, the keys left behind in
-   pendingReqs by exchanges that ended without an answer (sendPFCPRequestMessage never deletes its
-   entry; only handleIncomingResponse does), and whether the reader goroutine is wedged. *)
-Record cst := C { counter : N; stale : list N; blocked : bool }.
+(* Per-connection state that outlives an exchange: the sequence counter and the keys present in
+   pendingReqs.  sendPFCPRequestMessage stores its request under its sequence number and removes the
+   entry when it returns (defer Delete), whatever the outcome; handleIncomingResponse does
+   LoadAndDelete and hands the message over with a non-blocking send into the request's one-slot
+   reply channel.  A request is stored once, so at most one hand-over per request is ever attempted
+   and the slot is free when it happens: the hand-over cannot fail and the reader cannot block. *)
+Record cst := C { counter : N; table : list N }.
 
 Fixpoint mem (k : N) (l : list N) : bool :=
   match l with [] => false | x :: r => (k =? x) || mem k r end.
@@ -42,43 +46,42 @@ Inductive outcome := Pending | Answered | Dead | Aborted.
 Inductive ev := Timeout | Resp (w : N) | Shutdown.
 Inductive out :=
   | Tx (w : N)        (* SendPFCPMsg(r.msg): the request goes out with this wire sequence number *)
-  | Deliver           (* handleIncomingResponse found the waiter, handed the message over, deleted the entry *)
+  | Deliver           (* LoadAndDelete found this exchange's entry: the message is handed to the requester *)
   | Ignored           (* no entry under that sequence number: nothing happens *)
-  | ReaderBlocked     (* entry found but nobody receives on the unbuffered reply channel: the reader never returns *)
-  | Unread            (* the reader is already wedged: the datagram is never looked at *)
+  | DeliverOther      (* the entry of some other outstanding request was found (and removed) *)
   | Teardown.         (* the caller's reaction to timeout=true: pConn.Shutdown() *)
 
 Record xst := X { retries : N; sent : N; res : outcome; key : N; conn : cst }.
 
-Definition add_stale (k : N) (c : cst) : cst := C (counter c) (k :: stale c) (blocked c).
+(* deferred pendingReqs.Delete(seq) when sendPFCPRequestMessage returns *)
+Definition drop_entry (k : N) (c : cst) : cst := C (counter c) (del k (table c)).
 
-(* a response whose sequence number is not the pending one: sync.Map Load on the other entries *)
-Definition stale_hit (c : cst) (k : N) : cst * list out :=
-  if mem k (stale c) then (C (counter c) (stale c) true, [ReaderBlocked]) else (c, [Ignored]).
+(* LoadAndDelete under a sequence number that is not this exchange's pending one *)
+Definition other_hit (c : cst) (k : N) : cst * list out :=
+  if mem k (table c) then (drop_entry k c, [DeliverOther]) else (c, [Ignored]).
 
 Definition step (s : xst) (e : ev) : xst * list out :=
   match e with
   | Resp w =>
-      if blocked (conn s) then (s, [Unread]) else
       let k := wire_seq w in
       match res s with
       | Pending =>
-          if k =? key s
-          then (X (retries s) (sent s) Answered (key s) (conn s), [Deliver])
-          else let '(c', o) := stale_hit (conn s) k in (X (retries s) (sent s) Pending (key s) c', o)
-      | r => let '(c', o) := stale_hit (conn s) k in (X (retries s) (sent s) r (key s) c', o)
+          if (k =? key s) && mem k (table (conn s))
+          then (X (retries s) (sent s) Answered (key s) (drop_entry (key s) (conn s)), [Deliver])
+          else let '(c', o) := other_hit (conn s) k in (X (retries s) (sent s) Pending (key s) c', o)
+      | r => let '(c', o) := other_hit (conn s) k in (X (retries s) (sent s) r (key s) c', o)
       end
   | Timeout =>
       match res s with
       | Pending =>
           if 0 <? retries s
           then (X (retries s - 1) (sent s + 1) Pending (key s) (conn s), [Tx (wire_seq (key s))])
-          else (X (retries s) (sent s) Dead (key s) (add_stale (key s) (conn s)), [Teardown])
+          else (X (retries s) (sent s) Dead (key s) (drop_entry (key s) (conn s)), [Teardown])
       | _ => (s, [])
       end
   | Shutdown =>
       match res s with
-      | Pending => (X (retries s) (sent s) Aborted (key s) (add_stale (key s) (conn s)), [])
+      | Pending => (X (retries s) (sent s) Aborted (key s) (drop_entry (key s) (conn s)), [])
       | _ => (s, [])
       end
   end.
@@ -92,12 +95,12 @@ Fixpoint run_from (s : xst) (tr : list ev) : xst * list out :=
 (* getSeqNum; newRequest; pendingReqs.Store(seq, r) (overwrites); first SendPFCPMsg; retriesLeft := n *)
 Definition start (n : N) (c : cst) : xst * list out :=
   let k := next_seq (counter c) in
-  (X n 1 Pending k (C k (del k (stale c)) (blocked c)), [Tx (wire_seq k)]).
+  (X n 1 Pending k (C k (k :: del k (table c))), [Tx (wire_seq k)]).
 
 Definition exchange (n : N) (c : cst) (tr : list ev) : xst * list out :=
   let '(s0, o0) := start n c in let '(s, o) := run_from s0 tr in (s, o0 ++ o).
 
-Definition fresh_conn : cst := C 0 [] false.
+Definition fresh_conn : cst := C 0 [].
 
 (* ------------------------------------------------------------------------------------------ *)
 (** * The two callers: startHeartBeatMonitor's tick and sendAssociationRequest *)
